@@ -25,6 +25,7 @@ Act(e) ==
   \/ e.a = "UseOp" /\ UseOp(e.x, e.k)
 TNext == /\ l <= Len(Traces[tid])
          /\ Act(E)
+         /\ ((E.landed /\ ~hist'[1].landed) => PropFail(tid, l, "a write landed through a handle that is write protected after the construction of a field"))
          /\ hist'[1].r = E.r /\ hist'[1].landed = E.landed            \* fidelity: same object ids, same write outcome
          /\ (E.changed => PropFail(tid, l, "a live field differs from its construction snapshot"))
          /\ l' = l + 1 /\ UNCHANGED tid
